@@ -135,6 +135,15 @@ pub fn run(ctx: &mut Ctx, o: &RichOpts) {
         if o.plant > 0.0 && r.gen_bool(o.plant) {
             plant_reserved(&mut claims, &mut r);
         }
+        if !prelude && r.gen_bool(0.04) {
+            // ambient-state probe: let holder and verifier look at a (worthless, unsigned) SD-JWT that names another digest
+            // algorithm right before this thread issues - nothing they saw may influence the issuance that follows
+            let alg_name = ["sha-512", "sha-384", "sha-1", "SHA-256", "md5"][r.gen_range(0..5)];
+            let pl = serde_json::json!({"iss": "https://issuer.example", "exp": now() + 1000, "_sd_alg": alg_name, "_sd": ["Rm9yZ2VkRGlnZXN0Rm9yZ2VkRGlnZXN0Rm9yZ2VkRGlnZXN0"]});
+            let junk = format!("{}.{}.c2ln~WyJzYWx0IiwgIm4iLCAidiJd~", crate::msg::b64(br#"{"alg":"ES256"}"#), crate::msg::b64(pl.to_string().as_bytes()));
+            let _ = holder_new(ctx, "Pjunk", &junk, Fmt::Compact);
+            verify(ctx, &VerifyArgs { raw: &junk, fmt: Fmt::Compact, res: &Resolver::Const(key.to_string()), aud: None, nonce: None, pair: 0, expect: crate::jt::NONE.to_string() });
+        }
         let mut strat = rstrategy(&mut r, &claims, o.bad_paths);
         if prelude {
             strat = StratSpec::simple("all");
